@@ -50,6 +50,12 @@ ProjWF(p) ==
     /\ \A i \in DOMAIN p.edges : p.edges[i].ms # <<>> /\ p.edges[i].motif = p.edges[i].ms[1]
     /\ p.len = Len(p.nodes)
     /\ p.ids = [i \in 1..Len(p.nodes) |-> i]
+    \* every logged space is a vector over {0, 1, free}: the recorder logs code 9 for a space that mentions names the network
+    \* does not have
+    /\ \A i \in DOMAIN p.nodes : \A j \in DOMAIN p.nodes[i].space : p.nodes[i].space[j] \in {0, 1, 2}
+    /\ \A i \in DOMAIN p.edges : \A k \in DOMAIN p.edges[i].ms : \A j \in DOMAIN p.edges[i].ms[k] : p.edges[i].ms[k][j] \in {0, 1, 2}
+    /\ \A i \in DOMAIN p.nodes : \A k \in DOMAIN p.nodes[i].seeds.v : \A j \in DOMAIN p.nodes[i].seeds.v[k] : p.nodes[i].seeds.v[k][j] \in {0, 1, 2}
+    /\ \A i \in DOMAIN p.nodes : \A k \in DOMAIN p.nodes[i].cand.v : \A j \in DOMAIN p.nodes[i].cand.v[k] : p.nodes[i].cand.v[k][j] \in {0, 1, 2}
 
 CfgOf(e) == [maxm |-> tr.cfg.maxm, failat |-> e.fail_at]
 Ret(b) == IF b THEN "true" ELSE "false"
